@@ -2,6 +2,10 @@
 (* C14: judges records of the real DateString / strict DateTime.                     *)
 (* r = input fields y mo d h mi s off(minutes), str = bytes written, ok = accepted   *)
 (* by strict parsing, py..ps pns poff(seconds) = the parsed time in its own zone.    *)
+(* zn = zone name of the input time's location; hid/pos = history (one process) and  *)
+(* position of the call in it ("" / 0 for calls made in the common process).         *)
+(* kind "e2e": the time was stored as modification date of an attachment in a real   *)
+(* PDF; ok = the attachment was listed with a date, py.. = that date.                *)
 EXTENDS Lex, TLC, Json
 Trace == ndJsonDeserialize("records.ndjson")
 VARIABLE l
@@ -11,12 +15,14 @@ Spec == Init /\ [][Next]_l
 
 In(r) == [y |-> r.y, mo |-> r.mo, d |-> r.d, h |-> r.h, mi |-> r.mi, s |-> r.s, off |-> r.off]
 Parsed(r) == [y |-> r.py, mo |-> r.pmo, d |-> r.pd, h |-> r.ph, mi |-> r.pmi, s |-> r.ps]
-Fails(r) ==
+Same(r) == (IF r.pmo \notin 1..12 \/ r.pns # 0 \/ InstantS(Parsed(r), r.poff) # Instant(In(r)) THEN {"instant"} ELSE {}) \cup
+           (IF r.poff # r.off * 60 THEN {"offset"} ELSE {})
+FailsUnit(r) ==
   (IF ~ValidISODate(r.str) THEN {"invalid-string"}
    ELSE IF Len(r.str) < 22 \/ DateFields(r.str) # In(r) THEN {"string-denotes-other-time"} ELSE {}) \cup
-  (IF ~r.ok THEN {"rejected"}
-   ELSE (IF r.pmo \notin 1..12 \/ r.pns # 0 \/ InstantS(Parsed(r), r.poff) # Instant(In(r)) THEN {"instant"} ELSE {}) \cup
-        (IF r.poff # r.off * 60 THEN {"offset"} ELSE {}))
+  (IF ~r.ok THEN {"rejected"} ELSE Same(r))
+FailsE2E(r) == IF ~r.ok THEN {"e2e-lost"} ELSE Same(r)
+Fails(r) == IF r.kind = "e2e" THEN FailsE2E(r) ELSE FailsUnit(r)
 
 Judge == l <= Len(Trace) =>
   LET r == Trace[l] f == Fails(r) IN
